@@ -135,7 +135,7 @@ func runC02(c *core.Ctx) {
 	maxK := c.Pick(3, 5)
 	depth := c.Pick(3, 4)
 	n := 0
-	for _, t := range dyn.Types[:dyn.NBuiltin] {
+	for _, t := range dyn.ElemTypes() {
 		for ch := 1; ch <= 8; ch++ {
 			if c.Quick() && ch > 4 && ch != 8 {
 				continue
